@@ -5,7 +5,8 @@
 * whether the loop's "maximum reached" break is guarded so that it does not fire while the last-N circular buffer is in
   use (structural test on the `if message_count == abs(max_messages)` statement), via `ast`;
 * the message-type tables the function consults: message_type_to_class keys, messages_with_p1_time,
-  messages_with_system_time, the classes whose to_numpy() output has a 'p1_time' key, TimeAlignmentMode values and the
+  messages_with_system_time, the classes whose to_numpy() output has a 'p1_time' key, the classes whose default
+  instance has 'p1_time' in its __dict__ (the test time_align_data uses), TimeAlignmentMode values and the
   number of messages per type the reader samples for source identifiers, via the interpreter.
 Fail closed: anything not recognised raises."""
 import ast, json, os, subprocess, sys
@@ -33,6 +34,7 @@ print(json.dumps({
   'p1': sorted(int(t) for t in messages_with_p1_time),
   'sys': sorted(int(t) for t in messages_with_system_time),
   'np_p1': sorted(np_p1),
+  'dict_p1': sorted(int(t) for t, c in message_type_to_class.items() if 'p1_time' in c().__dict__),
   'names': {t.name: int(t) for t in MessageType},
   'align': {m.name: int(m) for m in TimeAlignmentMode},
   'probe': inspect.signature(MixedLogReader._populate_available_source_ids).parameters['num_messages_to_read'].default,
@@ -152,6 +154,7 @@ def generate():
     text += 'Definition p1_types : list N := %s.\n' % nl(info['p1'])
     text += 'Definition sys_types : list N := %s.\n' % nl(info['sys'])
     text += 'Definition np_p1_types : list N := %s.\n' % nl(info['np_p1'])
+    text += 'Definition dict_p1_types : list N := %s.\n' % nl(info['dict_p1'])
     text += 'Definition align_none : N := %d%%N.\nDefinition align_drop : N := %d%%N.\nDefinition align_insert : N := %d%%N.\n' % (
         info['align']['NONE'], info['align']['DROP'], info['align']['INSERT'])
     text += 'Definition source_probe_count : nat := %d.\n' % int(info['probe'])
